@@ -94,6 +94,7 @@ type Exec struct {
 	privCells  []privCell
 	// axioms requested while a quantified formula was being built (emitted when it is complete)
 	pendingAxioms []string
+	assertSeen    map[string]bool
 }
 
 type Frame struct {
@@ -665,6 +666,7 @@ func (x *Exec) block(fr *Frame, b *ssa.BasicBlock, st *State) {
 		if _, ok := ins.(*ssa.Phi); ok {
 			continue
 		}
+		x.checkAsserts(fr, b, st, ins)
 		x.instr(fr, b, st, ins)
 	}
 }
